@@ -15,6 +15,15 @@
 #include <stdatomic.h>
 #include <stdint.h>
 
+#ifdef LIBFIBER_VERIF
+/* verification hooks (off by default): tell a deterministic simulator about
+ * spin-wait hints, double-word CAS and store->load fences, which are inline
+ * assembly and therefore invisible to compiler instrumentation */
+extern void fiber_verif_spin_hint(void);
+extern void fiber_verif_dwcas(volatile void* location);
+extern void fiber_verif_fence(void);
+#endif
+
 _Static_assert(ATOMIC_BOOL_LOCK_FREE == 2, "");
 _Static_assert(ATOMIC_CHAR_LOCK_FREE == 2, "");
 _Static_assert(ATOMIC_CHAR16_T_LOCK_FREE == 2, "");
@@ -37,6 +46,9 @@ static inline void write_barrier() {
 
 /* this barrier orders writes against reads */
 static inline void store_load_barrier() {
+#ifdef LIBFIBER_VERIF
+  fiber_verif_fence();
+#endif
 #if defined(__i386__)
   __asm__ __volatile__("lock; addl $0,0(%%esp)" : : : "memory");
 #elif defined(__x86_64__)
@@ -56,6 +68,9 @@ static inline void load_load_barrier() {
 }
 
 static inline void cpu_relax() {
+#ifdef LIBFIBER_VERIF
+  fiber_verif_spin_hint();
+#endif
 #if defined(__i386__) || defined(__x86_64__)
   __asm__ __volatile__("pause" : : : "memory");
 #else
@@ -72,6 +87,9 @@ pointer_pair_t;
 static inline int compare_and_swap2(volatile pointer_pair_t* location,
                                     const pointer_pair_t* original_value,
                                     const pointer_pair_t* new_value) {
+#ifdef LIBFIBER_VERIF
+  fiber_verif_dwcas(location);
+#endif
 #if defined(__i386__)
   return __sync_bool_compare_and_swap(
       (uint64_t*)location, *(uint64_t*)original_value, *(uint64_t*)new_value);
